@@ -3,6 +3,7 @@
 From SV Require Import Lib.Base Gen.Consts Gen.WireFields Model.WireBase Proofs.WireBaseProofs.
 From SV Require Import Model.WireIpv6Opt Proofs.WireIpv6OptProofs.
 From SV Require Import Model.WireIpv6Hbh Proofs.WireIpv6HbhProofs.
+From SV Require Import Model.WireIpv6Routing Proofs.WireIpv6RoutingProofs.
 From SV Require Import Props.C06b_v6opts.
 
 Check (C06_v6opt_emit_no_panic : forall r b,
@@ -51,3 +52,20 @@ Check (C06_v6hbh_push_padn_option_ok : forall r n,
   Z.of_nat (length (v6hbh_opts r)) < cfg_IPV6_HBH_MAX_OPTIONS ->
   exists r', v6hbh_push_padn_option r n = Ok r' /\ v6hbh_wf r' = true /\
              v6hbh_buffer_len r' = v6hbh_buffer_len r + (n + 2)).
+
+Check (C06_v6rt_emit_no_panic : forall r b,
+  v6rt_wf r = true -> blen b = v6rt_buffer_len r -> v6rt_emit r b <> Panic).
+
+Check (C06_v6rt_emit_ignores_old_bytes : forall r b1 b2,
+  v6rt_wf r = true -> blen b1 = v6rt_buffer_len r -> blen b2 = v6rt_buffer_len r ->
+  v6rt_emit r b1 = v6rt_emit r b2).
+
+Check (C06_v6rt_roundtrip : forall r b,
+  v6rt_wf r = true -> blen b = v6rt_buffer_len r ->
+  exists bs, v6rt_emit r b = Ok bs /\ blen bs = v6rt_buffer_len r /\ v6rt_parse bs = Ok r).
+
+Check (C06_v6rt_reparse : forall bs r,
+  bytes_ok bs = true -> v6rt_parse bs = Ok r ->
+  v6rt_wf r = true /\
+  forall b, blen b = v6rt_buffer_len r ->
+    exists bs', v6rt_emit r b = Ok bs' /\ v6rt_parse bs' = Ok r).
